@@ -82,6 +82,9 @@ type Lane[C any] struct {
 	Quick  int // rapid cases in the quick tier (whole run)
 	Thor   int // rapid cases in the thorough tier (whole run, split over shards)
 	Hidden bool
+	// Journal: write each case to VERIF_JOURNAL before running it, so that a
+	// process death inside the library still leaves a replay file.
+	Journal bool
 }
 
 type suite struct {
@@ -248,8 +251,14 @@ func runLane[C any](s *suite, l Lane[C]) {
 				s.rec.Class(l.Name+":inconclusive", int64(inconcl))
 			}
 		}()
+		jpath := os.Getenv("VERIF_JOURNAL")
 		rapid.Check(t, func(rt *rapid.T) {
 			c := l.Gen(rt)
+			if l.Journal && jpath != "" {
+				js, _ := json.Marshal(c)
+				b, _ := json.Marshal(replayFile{Property: s.id, Lane: l.Name, Sig: "process-death", Message: "the test process died while this case was running", Case: js})
+				_ = os.WriteFile(jpath, b, 0o644)
+			}
 			o := l.Run(c)
 			cl := append([]string{"lane:" + l.Name}, o.Classes...)
 			s.rec.Case(c, o.NonTrivial, cl...)
